@@ -437,3 +437,31 @@ def budget_catalogue():
     g("optplus", [rule("S", act(seq(plus(opt(lit("a"))), any_()), b_rec("s")))], nonterminating=True, budget_max=12)
     g("notstar", [rule("S", act(seq(star(not_(lit("b"))), any_()), b_rec("s")))], nonterminating=True, budget_max=12)
     return out
+
+
+# ------------------------------------------------------------------ C07(b): grammars with a first-call cycle (hidden or plain)
+
+def cyclic_catalogue():
+    """Every grammar here lets some rule reach itself at the same input position;
+    the tool must reject each of them unless -support-left-recursion is given."""
+    out = []
+    def g(name, rules):
+        out.append(grammar("cy_" + name, rules, cyclic=True))
+    top = lambda: rule("S", act(label("x", ref("A")), b_rec("s")))
+    g("direct", [top(), rule("A", choice(seq(ref("A"), lit("x")), lit("y")))])
+    g("optprefix", [top(), rule("A", choice(seq(opt(ref("B")), ref("A"), lit("x")), lit("y"))), rule("B", lit("b"))])
+    g("andpred", [top(), rule("A", seq(and_(ref("A")), lit("a")))])
+    g("notpred", [top(), rule("A", seq(not_(ref("A")), lit("a")))])
+    g("notindirect", [top(), rule("A", seq(not_(ref("B")), lit("a"))), rule("B", seq(ref("A"), lit("b")))])
+    g("plusseq", [top(), rule("A", choice(plus(seq(ref("N"), ref("A"))), lit("a"))), rule("N", opt(lit("n")))])
+    g("optseq", [top(), rule("A", seq(opt(seq(ref("N"), ref("A"))), lit("a"))), rule("N", opt(lit("n")))])
+    g("starseq", [top(), rule("A", seq(star(seq(ref("N"), ref("A"), lit("q"))), lit("a"))), rule("N", opt(lit("n")))])
+    g("indirect", [top(), rule("A", choice(seq(ref("B"), lit("x")), lit("a"))), rule("B", choice(seq(ref("A"), lit("y")), lit("b")))])
+    g("emptylit", [top(), rule("A", choice(seq(lit(""), ref("A")), lit("a")))])
+    g("label", [top(), rule("A", choice(seq(label("v", ref("A")), lit("a")), lit("a")))])
+    g("choice", [top(), rule("A", seq(choice(ref("A"), lit("b")), lit("e")))])
+    g("optself", [top(), rule("A", seq(opt(ref("A")), lit("a")))])
+    g("codepred", [top(), rule("A", choice(seq(andcode(p_const(True)), ref("A"), lit("a")), lit("a")))])
+    g("action", [top(), rule("A", choice(seq(act(ref("A"), b_rec("in")), lit("a")), lit("a")))])
+    g("andseq", [top(), rule("A", seq(and_(seq(ref("N"), ref("A"))), lit("a"))), rule("N", opt(lit("n")))])
+    return out
